@@ -254,67 +254,164 @@ def gen_macro_case(rng, idx):
 
 
 # ------------------------------------------------------------------ conditional structures
-def gen_cond_case(rng, idx):
-    """nested #if/#ifdef/#ifndef/#elif/#else/#endif with marker tokens in every group"""
+# A structure is generated as a tree (the C11 view: if-sections with their groups), rendered as text for the
+# preprocessors and in prefix form for the PpCond model (ocaml/driver_c09fn.ml, query `K`).
+#   elem = ('T', k) | ('D', n, v) | ('U', n) | ('S', head, elems, tail)
+#   head = ('I', cond) | ('F', n) | ('N', n)        tail = ('E',) | ('L', cond, elems, tail) | ('O', elems)
+#   cond = (text, [model words])
+_CONSTS = [('0', 'c0'), ('1', 'c1'), ('2 > 1', 'c1'), ('1 - 1', 'c0'), ('-1 < 0u', 'c0'), ('(1 ? 0 : 1)', 'c0'),
+           ('0x10 >> 4', 'c1'), ('!1', 'c0')]
+
+
+def gen_cond_tree(rng, idx):
     px = 'd%d_' % idx
-    defs = [px + 'A', px + 'B', px + 'C']
-    lines = []
-    defined = set()
+    names = [px + 'A', px + 'B', px + 'C']
     feats = set()
     cnt = [0]
 
-    def marker():
-        cnt[0] += 1
-        return '%sk%d ;' % (px, cnt[0])
-
     def cond():
         k = rng.random()
-        d = rng.choice(defs)
-        if k < 0.25:
-            return rng.choice(['0', '1', '2 > 1', '1 - 1', '-1 < 0u', '(1 ? 0 : 1)'])
+        n = rng.randrange(3)
+        if k < 0.22:
+            t, w = rng.choice(_CONSTS)
+            return (t, [w])
+        if k < 0.245:
+            feats.add('division-by-zero-condition')
+            return (rng.choice(['1 / 0', '1 % 0 == 0']), ['x'])
         if k < 0.5:
-            return 'defined(%s)' % d
+            return ('defined(%s)' % names[n], ['d', str(n)])
         if k < 0.65:
-            return '!defined %s' % d
+            return ('!defined %s' % names[n], ['!', 'd', str(n)])
         if k < 0.8:
-            return 'defined(%s) && !defined(%s)' % (d, rng.choice(defs))
+            m = rng.randrange(3)
+            return ('defined(%s) && !defined(%s)' % (names[n], names[m]), ['&', 'd', str(n), '!', 'd', str(m)])
         if k < 0.9:
-            return '%s + 0' % d          # identifier: 0 if undefined, its value otherwise
-        return '%s == %d' % (d, rng.randint(0, 2))
+            return ('%s + 0' % names[n], ['z', str(n)])
+        v = rng.randint(0, 2)
+        return ('%s == %d' % (names[n], v), ['=', str(n), str(v)])
 
-    def block(depth):
+    def elems(depth):
+        out = []
         for _ in range(rng.randint(1, 3)):
             k = rng.random()
-            if k < 0.30:
-                lines.append(marker())
+            if k < 0.30 or (depth == 0 and k >= 0.42):
+                cnt[0] += 1
+                out.append(('T', cnt[0]))
             elif k < 0.42:
-                d = rng.choice(defs)
-                lines.append('#define %s %d' % (d, rng.randint(0, 2)) if rng.random() < 0.7 else '#undef %s' % d)
+                n = rng.randrange(3)
+                out.append(('D', n, rng.randint(0, 2)) if rng.random() < 0.7 else ('U', n))
                 feats.add('define/undef-in-group')
-            elif depth > 0:
+            else:
                 form = rng.random()
-                if form < 0.5:
-                    lines.append('#if ' + cond())
-                elif form < 0.75:
-                    lines.append('#ifdef ' + rng.choice(defs))
-                else:
-                    lines.append('#ifndef ' + rng.choice(defs))
-                block(depth - 1)
+                head = ('I', cond()) if form < 0.5 else (('F', rng.randrange(3)) if form < 0.75 else ('N', rng.randrange(3)))
+                body = elems(depth - 1)
+                groups = []
                 for _ in range(rng.choice([0, 0, 1, 1, 2, 3])):
-                    lines.append('#elif ' + cond())
                     feats.add('elif')
-                    block(depth - 1)
+                    groups.append((cond(), elems(depth - 1)))
+                tail = ('E',)
                 if rng.random() < 0.6:
-                    lines.append('#else')
                     feats.add('else')
-                    block(depth - 1)
-                lines.append('#endif')
+                    tail = ('O', elems(depth - 1))
+                for c, b in reversed(groups):
+                    tail = ('L', c, b, tail)
+                out.append(('S', head, body, tail))
                 if depth < 3:
                     feats.add('nested-depth-%d' % (4 - depth))
+        return out
+    return elems(3), names, px, feats
+
+
+def cond_text(tree, names, px):
+    lines = []
+
+    def r_elems(es):
+        for e in es:
+            if e[0] == 'T':
+                lines.append('%sk%d ;' % (px, e[1]))
+            elif e[0] == 'D':
+                lines.append('#define %s %d' % (names[e[1]], e[2]))
+            elif e[0] == 'U':
+                lines.append('#undef %s' % names[e[1]])
             else:
-                lines.append(marker())
-    block(3)
-    return '\n'.join(lines) + '\n', sorted(feats)
+                h = e[1]
+                lines.append('#if ' + h[1][0] if h[0] == 'I' else ('#ifdef ' if h[0] == 'F' else '#ifndef ') + names[h[1]])
+                r_elems(e[2])
+                t = e[3]
+                while t[0] == 'L':
+                    lines.append('#elif ' + t[1][0])
+                    r_elems(t[2])
+                    t = t[3]
+                if t[0] == 'O':
+                    lines.append('#else')
+                    r_elems(t[1])
+                lines.append('#endif')
+    r_elems(tree)
+    lines.append(' '.join(names) + ' ;')          # shows the macro state at the end
+    return '\n'.join(lines) + '\n'
+
+
+def cond_query(tree):
+    w = []
+
+    def q_elems(es):
+        w.append('[')
+        for e in es:
+            if e[0] == 'T':
+                w.extend(['T', str(e[1])])
+            elif e[0] == 'D':
+                w.extend(['D', str(e[1]), str(e[2])])
+            elif e[0] == 'U':
+                w.extend(['U', str(e[1])])
+            else:
+                w.append('S')
+                h = e[1]
+                if h[0] == 'I':
+                    w.append('I')
+                    w.extend(h[1][1])
+                else:
+                    w.extend([h[0], str(h[1])])
+                q_elems(e[2])
+                q_tail(e[3])
+        w.append(']')
+
+    def q_tail(t):
+        if t[0] == 'E':
+            w.append('E')
+        elif t[0] == 'L':
+            w.append('L')
+            w.extend(t[1][1])
+            q_elems(t[2])
+            q_tail(t[3])
+        else:
+            w.append('O')
+            q_elems(t[1])
+    q_elems(tree)
+    return 'K ' + ' '.join(w)
+
+
+def cond_expected(answer, names, px):
+    """token list the model predicts for the text of cond_text; None when the model reports an error;
+    raises ValueError when the C11 reading of the tree disagrees with the machine (a broken theorem)"""
+    if 'SPEC-DIFFERS' in answer or answer.startswith('driver-error'):
+        raise ValueError(answer)
+    if not answer.startswith('ok'):
+        return None
+    parts = answer[2:].split('|')
+    toks = []
+    for k in parts[0].split():
+        toks += ['%sk%s' % (px, k), ';']
+    env = dict(p.split('=') for p in parts[1].split())
+    for i, n in enumerate(names):
+        toks.append(env.get(str(i), n))
+    toks.append(';')
+    return toks
+
+
+def gen_cond_case(rng, idx):
+    """nested #if/#ifdef/#ifndef/#elif/#else/#endif with marker tokens in every group"""
+    tree, names, px, feats = gen_cond_tree(rng, idx)
+    return cond_text(tree, names, px), sorted(feats)
 
 
 # ------------------------------------------------------------------ tokenizer
